@@ -180,4 +180,72 @@ theorem parseExpr_filter (br : Bool) (x : List Frag) (h : ExprOKF x) :
         exact h3
       simp only [parseExpr, key]
 
+/-! ## in the words of Spec.lean -/
+
+theorem okL_mem : ∀ (r : List Frag) (g : Frag), Frag.okL r = true → g ∈ r → g.ok = true := by
+  intro r
+  induction r with
+  | nil => intro g _ hg; simp at hg
+  | cons f r ih =>
+    intro g h hg
+    simp only [Frag.okL, Bool.and_eq_true] at h
+    rcases List.mem_cons.1 hg with e | e
+    · subst e; exact h.1
+    · exact ih g h.2 e
+
+theorem devsL_mem : ∀ (r : List Frag) (g : Frag), Frag.devsL r = [] → g ∈ r → g.devs = [] := by
+  intro r
+  induction r with
+  | nil => intro g _ hg; simp at hg
+  | cons f r ih =>
+    intro g h hg
+    simp only [Frag.devsL, List.append_eq_nil_iff] at h
+    rcases List.mem_cons.1 hg with e | e
+    · subst e; exact h.1
+    · exact ih g h.2 e
+
+/-- a fragment that is not Root/At is clean, or a filter -/
+theorem clean_or_filter (g : Frag) (hok : g.ok = true) (hdev : g.devs = []) (hra : g.isRootAt = false) :
+    g.clean = true ∨ ∃ t, g = .filter t := by
+  cases g with
+  | filter t => exact Or.inr ⟨t, rfl⟩
+  | root => simp [Frag.isRootAt] at hra
+  | «at» => simp [Frag.isRootAt] at hra
+  | child k => exact Or.inl (clean_of_spec _ hok hdev hra rfl)
+  | nth i => exact Or.inl (clean_of_spec _ hok hdev hra rfl)
+  | wild h => exact Or.inl (clean_of_spec _ hok hdev hra rfl)
+  | descent => exact Or.inl (clean_of_spec _ hok hdev hra rfl)
+  | union ms => exact Or.inl (clean_of_spec _ hok hdev hra rfl)
+  | slice ns => exact Or.inl (clean_of_spec _ hok hdev hra rfl)
+
+/-- **C14 for expressions with filters, in the words of Spec.lean**: constructible, no named deviation, and
+every filter fragment is `Filter(e)` of a constructible, deviation-free, shallow equation -/
+theorem roundTripsExpr_filter_spec (br : Bool) (x : List Frag) (hok : Frag.okL x = true) (hdev : devsExpr br x = [])
+    (hf : ∀ t, Frag.filter t ∈ x → ∃ e : Eqn, e.ok = true ∧ devsEqn e = [] ∧ e.shallow = true ∧ t = e.build) :
+    roundTripsExpr br x = true := by
+  have hx : ExprOKF x := by
+    simp only [devsExpr] at hdev
+    obtain ⟨hra, hdl⟩ := addIf_nil hdev
+    have hgen : ∀ g ∈ x, g.isRootAt = false → g.clean = true ∨ ∃ e : Eqn, e.okC = true ∧ g = .filter e.build := by
+      intro g hg hr
+      rcases clean_or_filter g (okL_mem x g hok hg) (devsL_mem x g hdl hg) hr with h | ⟨t, ht⟩
+      · exact Or.inl h
+      · subst ht
+        obtain ⟨e, h1, h2, h3, h4⟩ := hf t hg
+        exact Or.inr ⟨e, okC_of_spec e h1 h2 h3, by rw [h4]⟩
+    cases x with
+    | nil => trivial
+    | cons f r =>
+      simp only [devRootAtL] at hra
+      refine ⟨?_, fun g hg => ?_⟩
+      · cases hfr : f.isRootAt
+        · exact Or.inr (hgen f (by simp) hfr)
+        · exact Or.inl rfl
+      · have : g.isRootAt = false := by
+          have := List.any_eq_false.1 hra g hg
+          simpa using this
+        exact hgen g (by simp [hg]) this
+  obtain ⟨y, h1, h2, h3⟩ := parseExpr_filter br x hx
+  simp [roundTripsExpr, h1, h2, h3]
+
 end OjgVerif.JPText
